@@ -43,6 +43,13 @@ def norm_diff_dump(d):
     return ";".join(out) + ";"
 
 
+def private_rng(rng, salt):
+    """a generator of its own, derived from the state of the run's generator WITHOUT advancing it: the components and
+    oracles registered behind this one keep the random stream they had before this slice existed"""
+    import random
+    return random.Random("%s/%r" % (salt, rng.getstate()[1][:8]))
+
+
 # ------------------------------------------------------------------------------------------------
 # edits
 # ------------------------------------------------------------------------------------------------
@@ -224,6 +231,7 @@ def sections(r, offset):
         out.append(norm_diff_dump(r[ix["daa", opts] + offset]))
         out.append(_res(r, ix["dab_rc", opts], ix["dab", opts], offset, True))
         out.append(_res(r, ix["ap_rc", opts], ix["ap", opts], offset, False))
+    out.append("nd=1")
     out.append(_res(r, ix["rev_rc"], ix["rev"], offset, True))
     out.append(_res(r, ix["rap_rc"], ix["rap"], offset, False))
     out.append(_res(r, ix["dbc_rc"], ix["dbc"], offset, True))
@@ -236,7 +244,7 @@ def sections(r, offset):
     return out
 
 
-SECTION_NAMES = ["hyp", "diff(A,A)+dflt", "diff(A,B)+dflt", "apply+dflt", "diff(A,A)", "diff(A,B)", "apply", "reverse",
+SECTION_NAMES = ["hyp", "diff(A,A)+dflt", "diff(A,B)+dflt", "apply+dflt", "diff(A,A)", "diff(A,B)", "apply", "nodflt-law", "reverse",
                  "apply-reverse", "diff(B,C)", "merge", "apply-merge", "merge+dflt", "apply-merge+dflt", "diff(B,A)",
                  "merge-undo", "apply-merge-undo"]
 
@@ -250,9 +258,26 @@ class DiffTree(Comp):
     driver = "lyx"
     slice = "difftree"
 
+    def __init__(self, part=None):
+        # part: None = every section; "C06" = diff / apply (both options); "C13" = reverse, merge, merge undo
+        self.part = part
+        if part:
+            self.name = "dtree-" + part
+
+    def cut(self, secs):
+        """the sections of the answer that belong to the property this instance is registered for"""
+        k = SECTION_NAMES.index("reverse")
+        if self.part == "C06":
+            return secs[:k]
+        if self.part == "C13":
+            return secs[:1] + secs[k:]
+        return secs
+
     def gen(self, rng, tier, scale=1.0):
+        _STREAMS.setdefault(id(rng), rng.getstate())  # see KeepStream
+        rng = private_rng(rng, self.name)
         pre = []
-        for i in range(self.n(tier, 500, 12000, scale)):
+        for i in range(self.n(tier, 1500, 20000, scale)):
             m, ig = tree_case(rng, userord=False, state=False, meta_prob=0.0)
             ig.max_inst = 6 if i % 4 == 0 else 4
             ig.edp = 0.45
@@ -276,10 +301,11 @@ class DiffTree(Comp):
         if " | end:" in out or out.startswith("?cmd"):              # implementation
             r = results(out)
             try:
-                return " | ".join(["hyp=11111"] + sections(r, NPSEUDO))
+                return " | ".join(self.cut(["hyp=11111"] + sections(r, NPSEUDO)))
             except (IndexError, KeyError):
                 return "bad answer: " + out[:200]
-        return out
+        secs = out.split(" | ")
+        return " | ".join(self.cut(secs)) if len(secs) == len(SECTION_NAMES) else out
 
     def witness(self, line, model_out, impl_out):
         """does the PROPERTY fail on the implementation for this case (C06: apply(diff(A,B),A) = B with defaults,
@@ -292,16 +318,106 @@ class DiffTree(Comp):
         except (IndexError, KeyError):
             return (None, "no answer from the implementation: " + impl_out[:100])
         g = dict(zip(SECTION_NAMES, sec))
-        if g["diff(A,A)+dflt"] != "empty" or g["diff(A,A)"] != "empty":
-            return (None, "diff(A,A) is not empty")
-        if g["apply+dflt"] != b:
-            return (None, "apply(diff(A,B),A) = %s, expected B = %s" % (g["apply+dflt"][:200], b[:200]))
+        if self.part != "C13":
+            if g["diff(A,A)+dflt"] != "empty" or g["diff(A,A)"] != "empty":
+                return (None, "diff(A,A) is not empty")
+            if g["apply+dflt"] != b:
+                return (None, "apply(diff(A,B),A) = %s, expected B = %s" % (g["apply+dflt"][:200], b[:200]))
+        if self.part == "C06" or g["apply+dflt"] != b:
+            return None
         if g["apply-reverse"] != a:
             return (None, "apply(reverse(diff(A,B)),B) = %s, expected A = %s" % (g["apply-reverse"][:200], a[:200]))
         if g["apply-merge"] != c:
-            return (None, "apply(merge(diff(A,B),diff(B,C)),A) = %s, expected C = %s" % (g["apply-merge"][:200], c[:200]))
+            return ("merge-npcont-dflt" if only_inner_flags(g["apply-merge"], c) else None,
+                    "apply(merge(diff(A,B),diff(B,C)),A) = %s, expected C = %s" % (g["apply-merge"][:200], c[:200]))
         if g["merge-undo"] != "empty" or g["apply-merge-undo"] != a:
             return (None, "merging diff(B,A) into diff(A,B) leaves %s" % g["merge-undo"][:200])
+        return None
+
+
+_STREAMS = {}
+
+
+class KeepStream:
+    """Not a check.  tools/check.py hands ONE random generator to all components and oracles of a property and draws from
+    it itself after every component (the sample it stores in the evidence), so registering a component shifts the inputs
+    of everything registered behind it.  The oracles that existed before this slice (oracles.DiffUord in particular, which
+    leaves some failures of user-ordered data without a tag on part of its random streams - about two seeds in nine, with or
+    without this slice) would then be judged on other inputs than before.  Registered as the FIRST oracle, this puts the
+    generator back to the state it had when the slice's component started, so that those oracles see exactly the inputs
+    they saw before the slice existed.  It generates no cases."""
+    name = "difftree-keep-stream"
+    driver = "lyx"
+    kinds = None
+    quick_sanitize = False
+
+    def gen(self, rng, tier, scale=1.0):
+        st = _STREAMS.pop(id(rng), None)
+        if st is not None:
+            rng.setstate(st)
+        return []
+
+    def judge(self, line, out):
+        return None
+
+
+def only_inner_flags(x, y):
+    """the two dumps differ only in the flag field of inner nodes (containers / list instances)"""
+    xs, ys = x.split(";"), y.split(";")
+    if len(xs) != len(ys):
+        return False
+    for p, q in zip(xs, ys):
+        if p == q:
+            continue
+        pp, qq = p.split(":"), q.split(":")
+        if len(pp) < 5 or pp[3] != "i" or pp[:4] != qq[:4] or pp[5:] != qq[5:]:
+            return False
+    return True
+
+
+class DiffTreeLaws:
+    """C06 / C13 on the implementation alone, on the triples of the correspondence component, judged on DUMPS (every node,
+    value, order and default flag - lyd_compare_siblings does not look at the flags of inner nodes): diff(A,A) is empty,
+    apply(diff(A,B),A) = B; apply(reverse(diff(A,B)),B) = A, apply(merge(diff(A,B),diff(B,C)),A) = C, merging the undoing
+    diff leaves nothing.  A merged diff whose application differs from C only in the default flag of inner nodes is the
+    known finding merge-npcont-dflt."""
+    driver = "lyx"
+    kinds = None
+    quick_sanitize = False
+
+    def __init__(self, part):
+        self.part = part                  # "C06" or "C13"
+        self.name = "difftree-laws-" + part
+
+    def gen(self, rng, tier, scale=1.0):
+        return DiffTree().gen(private_rng(rng, self.name), tier, scale * 0.5)
+
+    def judge(self, line, out):
+        if out.startswith("CRASH(") or out == "TIMEOUT":
+            return (None, "crash: " + out)
+        r = results(out)
+        try:
+            sec = ["hyp"] + sections(r, NPSEUDO)
+            ix = _indices()
+            a, b, c = (r[ix[k] + NPSEUDO] for k in "ABC")
+        except (IndexError, KeyError):
+            return (None, "no answer from the implementation: " + out[:100])
+        g = dict(zip(SECTION_NAMES, sec))
+        if self.part == "C06":
+            if g["diff(A,A)+dflt"] != "empty" or g["diff(A,A)"] != "empty":
+                return (None, "diff(A,A) is not empty")
+            if g["apply+dflt"] != b:
+                return (None, "apply(diff(A,B),A) = %s, expected B = %s" % (g["apply+dflt"][:300], b[:300]))
+            return None
+        if g["apply+dflt"] != b:
+            return None                   # a C06 matter: the C13 laws cannot be judged on such a case
+        if g["apply-reverse"] != a:
+            return (None, "apply(reverse(diff(A,B)),B) = %s, expected A = %s" % (g["apply-reverse"][:300], a[:300]))
+        if g["apply-merge"] != c:
+            tag = "merge-npcont-dflt" if only_inner_flags(g["apply-merge"], c) else None
+            return (tag, "apply(merge(diff(A,B),diff(B,C)),A) = %s, expected C = %s" % (g["apply-merge"][:300], c[:300]))
+        if g["merge-undo"] != "empty" or g["apply-merge-undo"] != a:
+            return (None, "merging diff(B,A) into diff(A,B) leaves %s" % g["merge-undo"][:300])
         return None
 
 
